@@ -49,7 +49,7 @@ type Release struct {
 // Fault breaks the n-th request (1-based).
 type Fault struct {
 	Index int    `json:"index"`
-	Kind  string `json:"kind"` // 500 | 404 | truncate | reset | empty
+	Kind  string `json:"kind"` // 500 | 404 | 403 | ratelimit | truncate | reset | empty
 }
 
 // Request is one log entry.
@@ -258,6 +258,20 @@ func (s *Server) handle(w http.ResponseWriter, r *http.Request, host string) {
 		case "404":
 			http.Error(w, `{"message":"Not Found"}`, 404)
 			s.finish(seq, 404, 0, "404")
+			return
+		case "ratelimit":
+			// the primary rate limit of the API: 403 with the remaining quota at zero
+			w.Header().Set("Content-Type", "application/json")
+			w.Header().Set("X-RateLimit-Limit", "60")
+			w.Header().Set("X-RateLimit-Remaining", "0")
+			w.Header().Set("X-RateLimit-Reset", strconv.FormatInt(time.Now().Add(time.Hour).Unix(), 10))
+			w.WriteHeader(403)
+			_, _ = w.Write([]byte(`{"message":"API rate limit exceeded for 203.0.113.7.","documentation_url":"https://docs.github.com/rest/overview/resources-in-the-rest-api#rate-limiting"}`))
+			s.finish(seq, 403, 0, "ratelimit")
+			return
+		case "403":
+			http.Error(w, `{"message":"Forbidden"}`, 403)
+			s.finish(seq, 403, 0, "403")
 			return
 		case "empty":
 			w.WriteHeader(200)
